@@ -443,6 +443,9 @@ pub fn quiescent_consistency(p: &Program, r: &RunResult) -> Vec<Violation> {
 /// C06: tree shape at quiescence (and, when sampled during the run, at every sample).
 pub fn trees(r: &RunResult) -> Vec<Violation> {
     let mut out = Vec::new();
+    for e in &r.midrun_errors {
+        out.push(v("tree-invariant-midrun", e.clone()));
+    }
     if let Some(rep) = &r.quiescent.inspect {
         for e in &rep.tree_errors {
             out.push(v("tree-invariant", e.clone()));
